@@ -27,7 +27,7 @@ REPO = Path(os.environ.get("VERIF_REPO", "/repo"))
 EVIDENCE = ROOT / "evidence"
 REPLAYS = ROOT / "replays"
 CORPUS = ROOT / "corpus"
-KDRIVER = LEAN / ".lake" / "build" / "bin" / "kdriver"
+BIN = LEAN / ".lake" / "build" / "bin"
 ALLOWED_AXIOMS = {"propext", "Classical.choice", "Quot.sound"}
 FORBIDDEN = re.compile(
     r"\bsorry\b|\badmit\b|^\s*axiom\s|native_decide|bv_decide|implemented_by|\bunsafe\s|maxHeartbeats\s+0")
@@ -128,7 +128,7 @@ def _strip_comments(text):
 
 def grep_forbidden():
     hits = []
-    files = list((LEAN / "Klong").rglob("*.lean")) + [LEAN / "Driver.lean"]
+    files = list((LEAN / "Klong").rglob("*.lean")) + list((LEAN / "Drivers").rglob("*.lean"))
     for f in files:
         for i, line in enumerate(_strip_comments(f.read_text()).split("\n"), 1):
             if FORBIDDEN.search(line):
@@ -142,10 +142,11 @@ class Driver:
     """Line-protocol client of the compiled Lean model driver."""
 
     def __init__(self, model):
-        if not KDRIVER.exists():
-            raise Infra("kdriver not built")
+        exe = BIN / f"kd_{model}"
+        if not exe.exists():
+            raise Infra(f"{exe} not built")
         self.model = model
-        self.p = subprocess.Popen([str(KDRIVER), model], stdin=subprocess.PIPE,
+        self.p = subprocess.Popen([str(exe)], stdin=subprocess.PIPE,
                                   stdout=subprocess.PIPE, text=True, bufsize=1)
         self.lines = 0
 
@@ -197,11 +198,14 @@ def fields(reply):
 # --------------------------------------------------------------------------- findings
 
 def load_findings(prop):
-    p = ROOT / "KNOWN_FINDINGS.json"
-    if not p.exists():
-        return []
-    data = json.loads(p.read_text())
-    return [e for e in data.get("findings", []) if e.get("property") == prop]
+    """KNOWN_FINDINGS.json plus per-property files findings.d/<id>.json (same shape)"""
+    out = []
+    files = [ROOT / "KNOWN_FINDINGS.json"] + sorted((ROOT / "findings.d").glob("*.json"))
+    for p in files:
+        if p.exists():
+            data = json.loads(p.read_text())
+            out += [e for e in data.get("findings", []) if e.get("property") == prop]
+    return out
 
 
 # --------------------------------------------------------------------------- run context
